@@ -112,3 +112,30 @@ Definition fread_ok (p : proj) (c : fread_case) : bool :=
 
 Definition mismatches_fread (cs : list fread_case) : list N := mismatches (fread_ok PBytes) cs.
 Definition mismatches_fread_loads (cs : list fread_case) : list N := mismatches (fread_ok PBytesLoads) cs.
+
+(* ---- reads of DAGs whose children have to be opened to be measured (File/Unsized.v, UnsizedLoads.v): bytes and
+   statuses always; the requests of each Read too when no block is unavailable (after a failed Read the implementation
+   measures again, the model keeps the error: only the replies are compared then) ---- *)
+From UV Require Import File.Unsized File.UnsizedLoads.
+
+Fixpoint umulti_run (p : proj) (order : list blk) (fault : blk -> option err) (root : blk)
+         (sts : list rstate) (ops : list (N * rop)) (obs : list oobs) : bool :=
+  match ops, obs with
+  | [], [] => true
+  | (i, op) :: ops', o :: obs' =>
+    let st := nth (N.to_nat i) sts rs0 in
+    let '(st', m) := match p with PBytes => ureader_step fault root st op | PBytesLoads => ureaderL_step fault root st op end in
+    obs_ok p order m o && umulti_run p order fault root (set_nth (N.to_nat i) st' sts) ops' obs'
+  | _, _ => false
+  end.
+
+Definition ufread_ok (c : fread_case) : bool :=
+  match fsrc_root (fr_src c) with
+  | Ok root =>
+    let order := preorder root in
+    umulti_run (match fr_faults c with [] => PBytesLoads | _ => PBytes end)
+               order (fault_of order (fr_faults c)) root [rs0; rs0; rs0; rs0] (fr_ops c) (fr_obs c)
+  | _ => false
+  end.
+
+Definition mismatches_ufread (cs : list fread_case) : list N := mismatches ufread_ok cs.
